@@ -4,7 +4,7 @@ from __future__ import annotations
 
 import ast
 
-from ..core import Check, Finding
+from ..core import AnalysisError, Check, Finding
 from .opsprop import fill
 
 EXPLANATION = (
@@ -21,36 +21,85 @@ EXPLANATION = (
 STATE_REL = "src/pest/state.py"
 
 
+def _paths(stmts: list[ast.stmt]) -> list[list[ast.stmt]]:
+    """Every path through a statement list (if/else both ways, try bodies in line, return ends the path)."""
+    paths: list[list[ast.stmt]] = [[]]
+    for st in stmts:
+        nxt: list[list[ast.stmt]] = []
+        for p in paths:
+            if p and isinstance(p[-1], (ast.Return, ast.Raise)):
+                nxt.append(p)
+                continue
+            if isinstance(st, ast.If):
+                for arm in (st.body, st.orelse):
+                    for q in _paths(arm):
+                        nxt.append(p + [ast.Expr(value=st.test)] + q)
+            elif isinstance(st, (ast.For, ast.While)):
+                raise AnalysisError(f"loop in a checkpoint method at line {st.lineno}: component pairing not decided")
+            elif isinstance(st, (ast.With, ast.Try)):
+                for q in _paths(st.body + (getattr(st, "finalbody", []) or [])):
+                    nxt.append(p + q)
+            else:
+                nxt.append(p + [st])
+        paths = nxt
+    return paths
+
+
+def _component_ops(path: list[ast.stmt], want: set[str]) -> dict[str, list[str]]:
+    got: dict[str, list[str]] = {}
+    for st in path:
+        if isinstance(st, ast.Assign) and ast.unparse(st.targets[0]) == "self.pos" and ast.unparse(st.value) == "self._pos_history.pop()":
+            got.setdefault("pos", []).append("reinstate")
+            continue
+        for n in ast.walk(st):
+            if isinstance(n, ast.Call) and isinstance(n.func, ast.Attribute):
+                recv = n.func.value
+                if isinstance(recv, ast.Attribute) and isinstance(recv.value, ast.Name) and recv.value.id == "self":
+                    if recv.attr in want and n.func.attr not in ("empty", "peek", "__len__"):
+                        got.setdefault(recv.attr, []).append(n.func.attr)
+                    if recv.attr == "_pos_history":
+                        if n.func.attr == "append" and n.args and ast.unparse(n.args[0]) == "self.pos":
+                            got.setdefault("pos", []).append("save")
+                        elif n.func.attr == "pop":
+                            got.setdefault("pos", []).append("discard")
+    return got
+
+
 def component_coverage(check: Check, repo) -> None:
-    """checkpoint/ok/restore must each touch every backtrackable component."""
+    """checkpoint/ok/restore must each touch every backtrackable component, once, on every path."""
     want = {"user_stack", "rule_stack", "atomic_depth", "pos"}
     ops = {
         "checkpoint": {"user_stack": "snapshot", "rule_stack": "snapshot", "atomic_depth": "snapshot", "pos": "save"},
         "ok": {"user_stack": "drop_snapshot", "rule_stack": "drop_snapshot", "atomic_depth": "drop", "pos": "discard"},
         "restore": {"user_stack": "restore", "rule_stack": "restore", "atomic_depth": "restore", "pos": "reinstate"},
     }
+    per_meth: dict[str, list[dict[str, list[str]]]] = {}
+    for meth in ops:
+        paths = _paths(repo.func(STATE_REL, f"ParserState.{meth}").body)
+        check.count("coverage_paths", len(paths))
+        per_meth[meth] = [_component_ops(p, want) for p in paths]
+    for comp in sorted(want):
+        # the same component made conditional in all three methods: the conditions may be correlated
+        # (a recorded flag); that pairing is not decided here
+        counts = {m: {len(g.get(comp, [])) for g in per_meth[m]} for m in ops}
+        if all(c != {1} for c in counts.values()) and len({frozenset(c) for c in counts.values()}) == 1:
+            raise AnalysisError(f"{STATE_REL}::ParserState: {comp} is saved and released conditionally in checkpoint, ok and restore alike; whether the conditions agree is not decided")
     for meth, table in ops.items():
-        fn = repo.func(STATE_REL, f"ParserState.{meth}")
         construct = f"{STATE_REL}::ParserState.{meth}"
-        got: dict[str, str] = {}
-        for n in ast.walk(fn):
-            if isinstance(n, ast.Call) and isinstance(n.func, ast.Attribute):
-                recv = n.func.value
-                if isinstance(recv, ast.Attribute) and isinstance(recv.value, ast.Name) and recv.value.id == "self":
-                    if recv.attr in want:
-                        got[recv.attr] = n.func.attr
-                    if recv.attr == "_pos_history":
-                        if n.func.attr == "append" and n.args and ast.unparse(n.args[0]) == "self.pos":
-                            got["pos"] = "save"
-                        elif n.func.attr == "pop":
-                            got.setdefault("pos", "discard")
-            if isinstance(n, ast.Assign) and ast.unparse(n.targets[0]) == "self.pos" and ast.unparse(n.value) == "self._pos_history.pop()":
-                got["pos"] = "reinstate"
+        per_path = per_meth[meth]
         for comp, op in table.items():
-            ok = got.get(comp) == op
-            what = f"{meth}() applies '{op}' to {comp}" if ok else f"{meth}() does not apply '{op}' to {comp} (found {got.get(comp)!r})"
-            sig = what if ok else f"{meth}() does not apply '{op}' to {comp}"
-            check.oblige("COVER", construct, sig, ok, finding=Finding("COVER", construct, sig, what, {"found": got}))
+            seen = [tuple(g.get(comp, [])) for g in per_path]
+            ok = all(s == (op,) for s in seen)
+            some = any(op in s for s in seen)
+            if ok:
+                sig = what = f"{meth}() applies '{op}' to {comp} exactly once on every path"
+            elif some:
+                sig = f"{meth}() applies '{op}' to {comp} on some paths only"
+                what = f"{sig}: per-path operations {sorted(set(seen))}; a checkpoint whose components are not all saved (or all released) pairs the wrong snapshots on a later ok()/restore()"
+            else:
+                sig = f"{meth}() does not apply '{op}' to {comp}"
+                what = f"{sig} (found {sorted(set(seen))})"
+            check.oblige("COVER", construct, sig, ok, finding=Finding("COVER", construct, sig, what, {"per_path": [list(x) for x in sorted(set(seen))]}))
         check.count("coverage_components", len(table))
 
 
